@@ -18,7 +18,7 @@
 EXTENDS Integers, Sequences, FiniteSets, TLC, Json
 
 CONSTANTS Subs, Objs, Bcasters, MaxOps, MaxEv,
-          AllowStop, AllowRespawn, SendTargets, SendSenders,
+          AllowStop, AllowRespawn, SendTargets, SendSenders, SendPayloads,
           KeyByValue, DropDead, Export
 
 VARIABLES inbox,    \* the stream's inbox
@@ -86,14 +86,17 @@ StopRespawn(p) ==
   /\ Op([op |-> "respawn", p |-> p, o |-> 1, b |-> "-", target |-> "-", sender |-> "-", id |-> 0])
   /\ UNCHANGED <<subs, alive, got, want, asub, nev, nmsg, gen>>
 
-(* Engine.Send / SendWithSender to something that cannot be delivered *)
-SendUndeliverable(t, s) ==
-  /\ CanOp /\ t \in SendTargets /\ s \in SendSenders
+(* Engine.Send / SendWithSender to something that cannot be delivered.  Sender "req": the message goes out through
+   Engine.Request (the sender is the request's response PID).  Payload "nil": the message value is the untyped nil
+   (it carries no id: 0) *)
+SendUndeliverable(t, s, pl) ==
+  /\ CanOp /\ t \in SendTargets /\ s \in SendSenders /\ pl \in SendPayloads
   /\ nmsg' = nmsg + 1
-  /\ inbox' = CASE t = "nil"     -> inbox                                   \* nil target: nothing at all
-                [] t = "foreign" -> Append(inbox, [t |-> "ev", p |-> "-", o |-> 0, e |-> MissEv(nmsg + 1, s)])
-                [] OTHER         -> Append(inbox, [t |-> "ev", p |-> "-", o |-> 0, e |-> DeadEv(t, nmsg + 1, s, "msg")])
-  /\ Op([op |-> "send", p |-> "-", o |-> 0, b |-> "-", target |-> t, sender |-> s, id |-> nmsg + 1])
+  /\ LET id == IF pl = "nil" THEN 0 ELSE nmsg + 1 IN
+     /\ inbox' = CASE t = "nil"     -> inbox                                   \* nil target: nothing at all
+                   [] t = "foreign" -> Append(inbox, [t |-> "ev", p |-> "-", o |-> 0, e |-> [MissEv(id, s) EXCEPT !.of = pl]])
+                   [] OTHER         -> Append(inbox, [t |-> "ev", p |-> "-", o |-> 0, e |-> DeadEv(t, id, s, pl)])
+     /\ Op([op |-> "send", p |-> "-", o |-> 0, b |-> pl, target |-> t, sender |-> s, id |-> id])
   /\ UNCHANGED <<subs, alive, got, want, asub, nev, gen>>
 
 (* eventStream.Receive: one message *)
@@ -132,7 +135,7 @@ Next == \/ \E p \in Subs, o \in Objs : Subscribe(p, o) \/ Unsubscribe(p, o)
         \/ \E b \in Bcasters : Broadcast(b)
         \/ \E p \in Subs : StopSub(p)
         \/ \E p \in Subs : StopRespawn(p)
-        \/ \E t \in SendTargets, s \in SendSenders : SendUndeliverable(t, s)
+        \/ \E t \in SendTargets, s \in SendSenders, pl \in SendPayloads : SendUndeliverable(t, s, pl)
         \/ Process
 
 Spec == Init /\ [][Next]_vars /\ WF_vars(Process)
